@@ -94,7 +94,14 @@ def r1_numbering(ctx, rule="R1"):
         else:
             why = ("the text is rewritten before it is split (`%s`): removing or merging leading lines shifts every line number"
                    % U(recv)[:80])
-    ctx.check(split_ok, rule, "line split", f.where(seq_expr), why, f.qname, "line split")
+    # a way of cutting the text that the rule does not know (a helper that was not expanded, a hand-written scanner) is not
+    # understood; the idioms known to cut elsewhere than at line feeds are violations
+    known_other = isinstance(seq_expr, ast.Call) and isinstance(seq_expr.func, ast.Attribute) and (
+        seq_expr.func.attr in ("splitlines", "rsplit", "partition") or (seq_expr.func.attr == "split" and not (
+            len(seq_expr.args) == 1 and isinstance(seq_expr.args[0], ast.Constant) and seq_expr.args[0].value == "\n")))
+    regex_split = isinstance(seq_expr, ast.Call) and U(seq_expr.func) in ("re.split", "re.findall")
+    is_split_call = isinstance(seq_expr, ast.Call) and isinstance(seq_expr.func, ast.Attribute) and seq_expr.func.attr == "split"
+    ctx.judge(split_ok, split_ok or known_other or regex_split or is_split_call, rule, "line split", f.where(seq_expr), why, f.qname, "line split")
     if not split_ok:
         return
     # ---- counter form: a local incremented once per iteration ------------------------------------------
